@@ -153,13 +153,52 @@ fn commit_roundtrip(p: &Prog, jets: &JetCodes, out: &mut Out) -> R {
     // branch. If the branch influences the inferred types, the round trip cannot preserve them.
     // Expected result then = the typing of the same DAG with the branch detached.
     if p.has(|s| s == Sym::Disc2) {
-        let detached: Dag = p.dag.iter().map(|n| if n.sym == Sym::Disc2 { Node { sym: Sym::Disc1, l: n.l, r: 0 } } else { *n }).collect();
+        // the commit DAG: branches detached, nodes only reachable through a branch removed
         let present = commit_order(&p.dag);
+        let mut remap = vec![usize::MAX; p.dag.len()];
+        let mut sorted = present.clone();
+        sorted.sort_unstable();
+        for (k, i) in sorted.iter().enumerate() {
+            remap[*i] = k;
+        }
+        let detached: Dag = sorted
+            .iter()
+            .map(|&i| {
+                let n = p.dag[i];
+                match n.sym {
+                    Sym::Disc2 => Node { sym: Sym::Disc1, l: remap[n.l as usize] as u8, r: 0 },
+                    s => match s.arity() {
+                        0 => n,
+                        1 => Node { sym: s, l: remap[n.l as usize] as u8, r: 0 },
+                        _ => Node { sym: s, l: remap[n.l as usize] as u8, r: remap[n.r as usize] as u8 },
+                    },
+                }
+            })
+            .collect();
         if let Some(p1) = Prog::new(&detached, p.fam) {
-            if present.iter().any(|i| p1.arrows[*i] != p.arrows[*i]) {
-                let p1 = Prog { dag: p.dag.clone(), fam: p.fam, arrows: p1.arrows };
-                return match commit_roundtrip_inner(&p1, p, jets, out, false) {
+            if sorted.iter().any(|i| p1.arrows[remap[*i]] != p.arrows[*i]) {
+                // expected = detached typing, transported back onto the original indices
+                let mut arrows = p.arrows.clone();
+                for i in &sorted {
+                    arrows[*i] = p1.arrows[remap[*i]].clone();
+                }
+                let pd = Prog { dag: p.dag.clone(), fam: p.fam, arrows };
+                return match commit_roundtrip_inner(&pd, p, jets, out, false) {
                     Ok(()) => bad("commit:attached-branch-not-serialized", "types inferred with the attached disconnect branch are not those of the decoded program (the commitment-time encoding drops the branch); the decoded program equals the typing with the branch detached".into()),
+                    Err((c, d)) if c == "commit:decode-fails" && d.contains("maximal sharing") => {
+                        // the same defect seen from the sharing side: with the branch, two nodes have
+                        // different types (distinct identity hashes, both emitted); without it they are
+                        // equal, so the decoder sees an unshared duplicate. Verify exactly that.
+                        let none: Vec<Option<Rc<RV>>> = vec![None; p.dag.len()];
+                        let emitted = p.to_commit().map(|c| ref_decode(&bytes_to_bits(&c.to_vec_without_witness()), jets).map(|(n, _)| n.len()).unwrap_or(0)).unwrap_or(0);
+                        let canonical = wire_list(&p1, &vec![None; p1.dag.len()], false).nodes.len();
+                        let _ = none;
+                        if canonical < emitted {
+                            bad("commit:attached-branch-changes-sharing", format!("with the attached branch two nodes have different types and are both emitted ({emitted} nodes); the decoder, not seeing the branch, types them equally ({canonical} nodes) and rejects the encoding: {d}"))
+                        } else {
+                            Err((c, d))
+                        }
+                    }
                     Err(e) => Err(e),
                 };
             }
